@@ -1,3 +1,2 @@
-import Desverif.Model.CQ
-import Desverif.Spec.FES
-import Desverif.Proofs.CQArith
+import Desverif.Props.C01
+import Desverif.Props.C03
